@@ -316,6 +316,12 @@ def run(tier, seed):
               for t in ts:
                 if op[3]:
                   t.complete(vz.Measurement({'m1': float(t.id)}))
+            elif op[0] == 'delete_trial':
+              ids = sorted(t.id for t in study.trials())
+              v = ('no trial',)
+              if ids:
+                study.get_trial(ids[op[1] % len(ids)]).delete()
+                v = ('deleted', ids[op[1] % len(ids)])
             elif op[0] == 'delete':
               v = study.delete()
             else:
@@ -336,6 +342,10 @@ def run(tier, seed):
       ops = [('create',)]
       for _ in range(r.randrange(1, 4)):
         ops.append(('suggest', r.randrange(1, 4), r.randrange(2), r.random() < 0.8))
+        if r.random() < 0.5:
+          ops.append(('delete_trial', r.randrange(0, 5)))      # leaves a gap in the trial ids the algorithm has seen
+      if hi % 3 == 0:
+        ops += [('suggest', 2, 0, True), ('delete_trial', 0), ('suggest', 1, 0, True)]
       ops += [('delete',), ('create',)]
       for _ in range(r.randrange(1, 3)):
         ops.append(('suggest', r.randrange(1, 4), r.randrange(2), r.random() < 0.8))
